@@ -14,32 +14,6 @@ import (
 // −0, huge, fractional), length n in [0,N], string code points.
 // Oracle: the law in the property text written with plain float comparisons.
 
-// zzSpecIndex: i is an integer with -n <= i < n; returns the position.
-func zzSpecIndex(f float64, n int) (int, bool) {
-	for k := -n; k < n; k++ {
-		if f == float64(k) {
-			if k < 0 {
-				return n + k, true
-			}
-			return k, true
-		}
-	}
-	return 0, false
-}
-
-// zzSpecBound: slice bound after adding n to negative values must be in [0,n].
-func zzSpecBound(f float64, n int) (int, bool) {
-	for k := -n; k <= n; k++ {
-		if f == float64(k) {
-			if k < 0 {
-				return n + k, true
-			}
-			return k, true
-		}
-	}
-	return 0, false
-}
-
 // zzIsInt: f is finite with integral value representable as int64 without
 // the implementation-defined conversion region (|f| < 2^63).
 func zzInConvRange(f float64) bool {
